@@ -62,7 +62,70 @@ def extra(tier, seed, workers, only):
     st.merge_from(bst)
     st.merge_from(engine.explore_many([make_spec("mc.props.c01", "SharedURLHarness", variant=v, ct=ct) for v in ("sync", "async") for ct in ("h11", "h2pk")],
                                       workers=workers, bound=None, seed=seed, max_violations=20))
+    st.merge_from(engine.explore_many([make_spec("mc.props.c01", "PortNeighbourHarness", variant=v, proto=pr) for v in ("sync", "async") for pr in ("h1", "h2")],
+                                      workers=workers, bound=None, seed=seed, max_violations=20))
     return st, {"sequential_fault_histories": len(specs), "executions": st.evaluations, "real_backends": binfo}
+
+
+class PortNeighbourHarness:
+    """Requests to origins that differ in the port only (and then in the host only), one after another on one pool: every request is
+    received - and therefore answered - by the server it was addressed to, never by a neighbour's idle connection."""
+    horizon = 400
+
+    def __init__(self, variant, proto="h1"):
+        self.variant, self.proto = variant, proto
+
+    def run(self, chooser):
+        import httpcore
+        from ..engine import Execution, Violation
+        from ..seqworld import SeqWorld, exc_class
+        from ..simnet.http1 import H1Server, make_echo_responder, token_of
+        from ..simnet.h2peer import H2Server
+        servers = {}
+
+        def router(kind, host, port):
+            srv = servers.get((host, port))
+            if srv is None:
+                srv = servers[(host, port)] = H1Server(make_echo_responder("cl")) if self.proto == "h1" else H2Server()
+            return srv.new_conn()
+        w = SeqWorld(chooser, router, variant=self.variant)
+        w.env.fp = None
+        cls = httpcore.ConnectionPool if self.variant == "sync" else httpcore.AsyncConnectionPool
+        pool = cls(network_backend=w.backend, http1=self.proto == "h1", http2=self.proto == "h2", max_connections=10)
+        plan = [("a.example", 8001), ("a.example", 8002), ("a.example", 8001), ("b.example", 8001), ("a.example", 80), ("a.example", 8002)]
+        got = []
+        if self.variant == "sync":
+            def prog():
+                for i, (h, p) in enumerate(plan):
+                    r = pool.request("GET", f"http://{h}:{p}/t/n{i}")
+                    got.append((r.status, r.content))
+                pool.close()
+            res = w.run(sync_fn=prog)
+        else:
+            async def aprog():
+                for i, (h, p) in enumerate(plan):
+                    r = await pool.request("GET", f"http://{h}:{p}/t/n{i}")
+                    got.append((r.status, r.content))
+                await pool.aclose()
+            res = w.run(async_fn=aprog)
+        ex = Execution(outcome=str(got), nontrivial=True)
+        seen = {}
+        for key, srv in servers.items():
+            for c in srv.conns:
+                if self.proto == "h1":
+                    for q in c.parser.requests:
+                        seen.setdefault(token_of(q), []).append(key)
+                else:
+                    for sid in c.order:
+                        seen.setdefault(c.streams[sid].token, []).append(key)
+        want = [(200, f"<n{i}>".encode()) for i in range(len(plan))]
+        wrong = [(f"n{i}", plan[i], seen.get(f"n{i}".encode())) for i in range(len(plan)) if seen.get(f"n{i}".encode()) != [plan[i]]]
+        if res[0] != "ok" or got != want or wrong:
+            ex.violations.append(Violation("C01.answered-by-neighbour", f"requests to origins differing in port / host only: results {got} ({res[0]}"
+                                           f"{': ' + exc_class(res[1]) if res[0] == 'exc' else ''}); received by another server than the one addressed "
+                                           f"(token, addressed, received by): {wrong} | proto={self.proto} variant={self.variant}",
+                                           {"harness": "port-neighbours", "kind": "answered-by-neighbour", "proto": self.proto}))
+        return ex
 
 
 class SharedURLHarness:
